@@ -200,6 +200,20 @@ def bounded_native(ck):
                 fails.append({"obligation": "bounded.value", "clause": "single-event first call", "input": {"version": ver, "beta": float(b0[j]), "log_e_nu": float(e0[j]), "first_call": True},
                               "observed": {"code": float(s1), "spec": float(w[j])}})
                 break
+        # the exit-probability column of the whole stage is tau_exit_prob of every event (also above the table, at low energy)
+        bcol = np.array([0.3, np.radians(43.0), 0.0005, np.radians(44.0), 0.7, np.radians(42.5)])
+        ecol = np.array([8.0, 6.5, 9.0, 6.2, 11.0, 7.1])
+        try:
+            np.random.seed(ck.seed + 2)
+            col = np.asarray(fresh_taus(ver)(bcol.copy(), ecol.copy())[4], dtype=float)
+            direct = np.asarray(fresh_taus(ver).tau_exit_prob(bcol.copy(), ecol.copy()), dtype=float)
+            n += len(bcol)
+            if col.shape != direct.shape or not np.array_equal(col, direct) or not np.all((col > 0) & (col <= 1)):
+                j = int(np.argmax(col != direct)) if col.shape == direct.shape else 0
+                fails.append({"obligation": "bounded.call", "clause": "the tauExitProb column of Taus.__call__ is tau_exit_prob(beta, log_e_nu) of every event, in (0, 1]", "input": {"version": ver, "beta": float(bcol[j]), "log_e_nu": float(ecol[j])},
+                              "observed": {"column": float(col[j]) if col.shape == direct.shape else str(col.shape), "tau_exit_prob": float(direct[j])}})
+        except Exception as ex:
+            fails.append({"obligation": "bounded.call", "clause": "Taus.__call__ evaluates", "input": {"version": ver}, "observed": "raised %r" % ex})
         # rejection of out-of-range energies, for every kind of angle that is looked up
         for bb in (nt.beta_min * 0.5, 0.3, nt.beta_max):
             for ee in (nt.e_lo - 1e-6, nt.e_hi + 1e-6, 5.0, 13.0):
